@@ -26,6 +26,7 @@ def run(ctx, sess):
     ctx.rule('C16.2', 'every sample width the validator accepts has an arm in the defaults switch, and the common (annotation/utc) defaults are applied on every path')
     ctx.rule('C16.3', 'for every accepted width w, the samples-per-data multiple m satisfies m * w % 256 == 0')
     ctx.rule('C16.4', 'each of the four values stored back into the definition derives from max(field, MIN) and the required round-up')
+    ctx.rule('C16.7', 'the divisibility established by the shrink loop is kept: its two variables are not modified between the loop exit and the values stored back')
     ctx.rule('C16.5', 'jls_wr_signal_def validates, then aligns, then serialises the aligned definition')
     ctx.rule('C16.6', 'every divisor in the normalisation arithmetic is >= 1 for every accepted width (interval evaluation)')
     widths = accepted_widths(P, fd)
@@ -166,6 +167,47 @@ def run(ctx, sess):
         ctx.ob('C16.4', ok_max and ok_r, a.name, 'stored %s is clamped%s' % (fld, ' and rounded' if rounded else ''), st.where(),
                'derives from max(def->%s, %d)%s' % (fld, mins[fld], ' and a round-up' if rounded else '') if (ok_max and ok_r) else
                'value stored does not derive from max(def->%s, MIN)%s' % (fld, ' / round-up' if rounded else ''))
+    # ---- C16.7
+    from ..graph import loops as _loops
+    from .defnorm import Bounds
+    lp_ = _loops(a)
+    est = None
+    for hdr_, body_ in lp_.items():
+        conds = [a.blocks[b_].cond for b_ in body_ if a.blocks[b_].cond is not None and len(a.blocks[b_].succs) >= 2]
+        if len(conds) != 1:
+            continue
+        c_ = strip_casts(conds[0])
+        if c_.get('op') == 'bin' and c_['o'] == '!=':
+            X_, Y_ = strip_casts(c_['k'][0]), strip_casts(c_['k'][1])
+            if Y_.get('op') != 'bin':
+                X_, Y_ = Y_, X_
+            if X_.get('op') == 'ref' and Y_.get('op') == 'bin' and Y_['o'] == '*':
+                q_, d_ = strip_casts(Y_['k'][0]), strip_casts(Y_['k'][1])
+                if d_.get('op') != 'ref':
+                    q_, d_ = d_, q_
+                if d_.get('op') == 'ref' and q_.get('op') == 'bin' and q_['o'] == '/' and strip_casts(q_['k'][0]).get('name') == X_['name'] and strip_casts(q_['k'][1]).get('name') == d_['name']:
+                    est = (hdr_, body_, X_['name'], d_['name'])
+    if est is None:
+        ctx.ob('C16.7', False, a.name, 'shrink loop X != (X / d) * d present', a.where(), 'the loop that makes entries_per_summary a multiple of entries per block was not found')
+    else:
+        hdr_, body_, Xn, dn = est
+        hb = a.blocks[hdr_]
+        exits = [(b_, i_) for b_ in body_ for i_, (s_, l_) in enumerate(a.blocks[b_].succs) if s_.id not in body_]
+        for b_, i_ in exits:
+            def on_event(e2, facts):
+                if e2.k in ('store', 'decl'):
+                    l0 = strip_casts(e2.store_parts()[0])
+                    if l0.get('op') == 'ref' and l0.get('name') in (Xn, dn):
+                        return 'target'
+                return None
+            w = find_path(a, (a.blocks[b_], i_), on_event)
+            ctx.ob('C16.7', w is None, a.name, '`%s` and `%s` unchanged after the shrink loop' % (Xn, dn), '%s:%d' % (a.file, hb.line),
+                   'the relation %s %% %s == 0 established by the loop reaches the stored values' % (Xn, dn) if w is None else
+                   'one of them is modified after the loop: the stored entries_per_summary is no longer a multiple of the entries per block, and normalising twice changes the result', w.render() if w else None)
+        # the stored-back values use them
+        sb = [ev for ev in a.stores() if strip_casts(ev.store_parts()[0]).get('op') == 'member' and strip_casts(ev.store_parts()[0]).get('field') == 'entries_per_summary']
+        ok = bool(sb) and strip_casts(sb[-1].store_parts()[1]).get('name') == Xn
+        ctx.ob('C16.7', ok, a.name, 'entries_per_summary stored back is the loop\'s `%s`' % Xn, sb[-1].where() if sb else a.where(), '')
     # ---- C16.5
     w = P.fn('jls_wr_signal_def')
     ctx.saw(w)
